@@ -92,10 +92,15 @@ func (a *extraAttribute) deserialize(b []byte) (int, error) {
 		return 0, ErrCorruptedData
 	}
 
-	a.extra = make([]byte, binary.BigEndian.Uint16(b))
-	copy(a.extra, b[sszSize:])
+	n := int(binary.BigEndian.Uint16(b))
+	if n > maxExtraLen || len(b) < sszSize+n {
+		return 0, ErrCorruptedData
+	}
 
-	return sszSize + len(a.extra), nil
+	a.extra = make([]byte, n)
+	copy(a.extra, b[sszSize:sszSize+n])
+
+	return sszSize + n, nil
 }
 
 func getAttributeFrom(attrCode attributeCode) (attribute, error) {
